@@ -132,6 +132,15 @@ def analyse(obs: Obs, prog):
     okg_ = bool(likes_g) and all(x[2][0] == ("attr", V, "value") and is_call(x[2][1], "eval_shape") for x in likes_g)
     obs.add({"C35", "C03", "C24"}, "DTYPE-ALIGN", "Distribution.generate/masked/dtype", okg_, construct="dtype of a masked constraint value", derived=f"{len(likes_g)} coercion(s): {[show(x)[:120] for x in likes_g[:1]]}",
             expected="the constraint value cast to the dtype of the distribution's samples (abstractly evaluated random_weighted) before the cond", where=w)
+    # the prototype may be a Python scalar (a trace built from `C["x"].set(1.0)` holds a float): its dtype is taken by result_type / asarray, not by the
+    # attribute `.dtype` (AttributeError: masked updates of such traces crashed)
+    lk = D.methods.get("_like")
+    if lk is not None:
+        rl_ = Evaluator(prog).eval_fn(lk, D.module, D)
+        dts = [dict(x[3]).get("dtype") for x in subterms(rl_.ret) if is_call(x, "asarray") and dict(x[3]).get("dtype") is not None]
+        raw_attr = [d_ for d_ in dts if is_t(d_, "attr") and d_[2] == "dtype" and is_t(d_[1], "leaf")]
+        obs.add({"C35", "C05", "C24"}, "DTYPE-ALIGN", "Distribution._like/scalar-prototype", bool(dts) and not raw_attr, construct="dtype of the prototype value",
+                derived=[show(d_)[:80] for d_ in dts], expected="jnp.result_type(proto) (or jnp.asarray(proto).dtype): defined for Python scalars as well as arrays", where=W(D, "_like"))
     for conds, t in [(c_, strip_like(t_)) for c_, t_ in arms_of(r)]:
         pair = tuple_n(t, 2, "Distribution.generate_choice_map")
         tr, wt = pair
